@@ -85,6 +85,16 @@ func VerifC19_E1(v *VerifV) {
 	if tw {
 		ev.TotalVotingPower++
 	}
+	// the votes' validator index is part of the evidence hash but not of the signed bytes: evidence that
+	// states another index than the validator's position is the same double-sign under another identity
+	wrongIndex := false
+	if scen == 0 && v.Bool("other-validator-index") {
+		idx := v.U32("validator-index")
+		v.Assume(int(idx) != whoA%N)
+		va.ValidatorIndex, vb.ValidatorIndex = idx, idx
+		wrongIndex = true
+		v.Cover("other-validator-index")
+	}
 	err := VerifyDuplicateVote(ev, types.VerifChain, vals)
 	sameStep := va.Height == vb.Height && va.Round == vb.Round && va.Type == vb.Type
 	_ = stdA
@@ -98,9 +108,10 @@ func VerifC19_E1(v *VerifV) {
 		v.Assert(!verifSameID(verifBlockID(bA), verifBlockID(bB)), "C19.verify.same-block-id")
 		v.Assert(!pw && !tw, "C19.verify.power-mismatch-accepted")
 		v.Assert(okA && okB, "C19.verify.forged-signature-accepted")
+		v.Assert(!wrongIndex, "C19.verify.accepts-the-same-double-sign-under-another-validator-index")
 	} else {
 		v.Cover("rejected")
-		v.Assert(!real, "C19.verify.real-double-sign-rejected")
+		v.Assert(!real || wrongIndex, "C19.verify.real-double-sign-rejected")
 	}
 }
 
